@@ -110,3 +110,25 @@ func VH_C18_limiter() {
 	}
 	zz.Reach("end")
 }
+
+
+// VH_C18_settings: from the settings as written in the hook's configuration to
+// the limiter: CheckAndConvertSettings -> CreateRateLimiter gives exactly one
+// token per executionMinInterval (as written, sub-second and fractional values
+// included) and a bucket of executionBurst.
+func VH_C18_settings() {
+	texts := []string{"3s", "500ms", "1500ms", "1m30s500ms", "0.9s"}
+	nanos := []time.Duration{3 * time.Second, 500 * time.Millisecond, 1500 * time.Millisecond, 90*time.Second + 500*time.Millisecond, 900 * time.Millisecond}
+	ii := zz.Len("interval", 0, len(texts)-1)
+	bi := zz.Len("burst", 0, 2)
+	bursts := []string{"1", "2", "5"}
+	st, err := (&config.HookConfigV1{}).CheckAndConvertSettings(&config.SettingsV1{ExecutionMinInterval: texts[ii], ExecutionBurst: bursts[bi]})
+	zz.Assert(err == nil && st != nil, "settings_load")
+	if err != nil || st == nil {
+		return
+	}
+	lim := hook.CreateRateLimiter(&config.HookConfig{Version: "v1", Settings: st})
+	zz.Assert(lim.Limit() == rate.Every(nanos[ii]), "limit_is_one_per_configured_interval")
+	zz.Assert(lim.Burst() == []int{1, 2, 5}[bi], "burst_is_configured_burst")
+	zz.Reach("end")
+}
